@@ -127,7 +127,12 @@ const F_X1: u32 = 32;
 const F_X2: u32 = 64;
 
 #[derive(Debug, Clone, PartialEq)]
-enum IdSpec { Implicit, Lit(i64), Base(i64), Arith(i64, i64), Rel(String, i64) }
+enum IdSpec { Implicit, Lit(i64), Base(i64), Arith(i64, i64), Rel(String, i64), Expr(&'static str, i64) }
+
+/// constant expressions over every operator class (value computed by hand): the id written to the file and the value of the
+/// sprite's name are computed by different evaluators in truth, which must agree
+const ID_EXPRS: [(&str, i64); 12] = [("((6 & 4) ? 10 : 20)", 10), ("(2 ? 7 : 9)", 7), ("(0 ? 7 : 9)", 9), ("(((-8) >> 1) + 20)", 16), ("((7 / 2) + 10)", 13), ("((13 % 5) + 8)", 11),
+    ("((!(0)) + 11)", 12), ("(~(-15))", 14), ("int(15.9)", 15), ("((3 < 5) + 16)", 17), ("((1 << 4) + 2)", 18), ("((5 ^ 1) | 16)", 20)];
 
 #[derive(Debug, Clone)]
 struct SpriteL { name: String, spec: IdSpec, pat: &'static str, marker: u32 }
@@ -193,7 +198,7 @@ fn gen_anm(ch: &mut Chooser, game: Game, prof: &[u32]) -> AnmLayout {
     let mut cur: i64 = -1; // generation-time guess of the previous sprite's id (only steers literal values)
     let mut first_guess: i64 = 0;
     for k in 0..tot {
-        let p = ch.pick_w(9, c(F_IDS));
+        let p = ch.pick_w(10, c(F_IDS));
         let (spec, pat, guess) = match p {
             0 => (IdSpec::Implicit, "implicit", cur + 1),
             1 => (IdSpec::Lit(cur + 1), "explicit-same-as-auto", cur + 1),
@@ -203,6 +208,7 @@ fn gen_anm(ch: &mut Chooser, game: Game, prof: &[u32]) -> AnmLayout {
             5 => (IdSpec::Base(k as i64), "const-expr", 10 + k as i64),
             6 => (IdSpec::Arith(k as i64 + 2, -1), "arith-expr", (k as i64 + 2) * 3 - 1),
             7 => (IdSpec::Rel(snames[0].clone(), 2), "rel-first", first_guess + 2),
+            9 => { let (t, v) = ID_EXPRS[ch.pick_w(ID_EXPRS.len(), c(F_IDS))]; (IdSpec::Expr(t, v), "operator-expr", v) },
             _ => (IdSpec::Rel(snames[tot - 1].clone(), -1), "rel-last", cur + 1),
         };
         if k == 0 { first_guess = guess; }
@@ -277,6 +283,7 @@ impl AnmLayout {
             IdSpec::Lit(v) => Ok(*v),
             IdSpec::Base(k) => Ok(10 + k),
             IdSpec::Arith(a, b) => Ok(a * 3 + b),
+            IdSpec::Expr(_, v) => Ok(*v),
             IdSpec::Rel(name, k) => self.resolve(Ctx::Untyped, name, defs, stack, memo).map(|v| v + k),
         };
         stack.pop();
@@ -353,6 +360,7 @@ fn id_text(spec: &IdSpec) -> String {
         IdSpec::Lit(v) => format!(", id: {v}"),
         IdSpec::Base(k) => format!(", id: base + {k}"),
         IdSpec::Arith(a, b) => format!(", id: {a} * 3 - {}", -b),
+        IdSpec::Expr(t, _) => format!(", id: {t}"),
         IdSpec::Rel(n, k) => if *k >= 0 { format!(", id: {n} + {k}") } else { format!(", id: {n} - {}", -k) },
     }
 }
